@@ -6,7 +6,9 @@ MAX_REPLAYS = 12
 def configs(tier, seed):
     cfgs = []
     if tier == "quick":
-        L = [(3, 2, [0, 1, 0], [0, 1], 2), (3, 2, [0, 1, 1], [1, 0], 2), (3, 1, [0, 1, 0], [1], 2), (2, 2, [0, 1], [1, 0], 2)]
+        # the last one has two non-prototype training samples and two validation samples: two swaps in one iteration
+        L = [(3, 2, [0, 1, 0], [0, 1], 2), (3, 2, [0, 1, 1], [1, 0], 2), (3, 1, [0, 1, 0], [1], 2), (2, 2, [0, 1], [1, 0], 2),
+             (4, 2, [0, 0, 1, 1], [1, 0], 1)]
         R = [(3, 1, [0, 1, 0], [0]), (3, 2, [0, 1, 0], [0, 1]), (4, 1, [0, 1, 0, 1], [0]), (3, 1, [0, 0, 1], [1])]
         P = [(3, 1, [0, 1, 0], [0], 1), (4, 2, [0, 1, 0, 1], [0, 1], 1), (4, 1, [0, 1, 1, 0], [1], 2)]
     else:
